@@ -99,6 +99,7 @@ PIXEL_KERNELS = {  # Lean name -> (class, method, cell tolerated on a tie of |d|
     "occlusionSgmPx": ("SgmInterpolation", "interpolate_occlusion_sgm", True),
     "mismatchSgmPx": ("SgmInterpolation", "interpolate_mismatch_sgm", False),
     "occlusionMcCnnPx": ("McCnnInterpolation", "interpolate_occlusion_mc_cnn", False),
+    "mismatchMcCnnPx": ("McCnnInterpolation", "interpolate_mismatch_mc_cnn", False),
 }
 
 
